@@ -15,7 +15,8 @@ Proof.
   intros IL H. unfold step in H.
   destruct l; cbn [step0] in H; unfold start_shutdown, store_state in H;
     step_cases H; inversion H; subst; clear H; unfold InvLen in *; simp_st;
-    unfold mark_ls_done, mark_mon_done; rewrite ?upd_length, ?map_length; exact IL.
+    unfold mark_ls_done, mark_mon_done; rewrite ?upd_length, ?map_length;
+    first [exact IL | unfold nrun in *; lia].
 Qed.
 
 Lemma InvLen_reachable c s : reachable_sup c s -> InvLen c s.
@@ -118,5 +119,117 @@ Proof.
   destruct L2 as (La & Lb & Lc).
   destruct (main s); destruct (rm_finished (rm s)); destruct (sdm_done s); destruct (stm_done s);
     destruct (negb (ctx_done s)); destruct (sd s);
+    try destruct (sd_timed_out s && negb (wg_zero s)); lia.
+Qed.
+
+(* ---------------------------------------------------------------- helpers counted until they have left *)
+
+(* [census] (the function the acceptor compares with the observed goroutine count) counts a trigger listener,
+   a state monitor, a pending 'go ReloadAll()' sender as gone as soon as the context is done, and a
+   trigger-spawned Shutdown caller as gone as soon as the shutdown body is done: their exits are not explored by
+   the acceptor.  [census_strict] counts each of them until it HAS left - by its own exit step (LRlsExit,
+   LSlsExit, LMonExit, LHupExit, LSdTrigExit) or through its manager's join. *)
+Definition census_strict (s : state) : nat :=
+  (match main s with MNew | MReturned _ => 0 | _ => 1 end)
+  + count_if (fun p => match p with RnLaunched | RnStored | RnRunning | RnSending _ => true | _ => false end) (rn s)
+  + (if rm_finished (rm s) then 0 else 1)
+  + count_if (fun p => negb (ls_finished p)) (rls s)
+  + (if sdm_done s then 0 else 1)
+  + count_if (fun p => negb (ls_finished p)) (sls s)
+  + (if stm_done s then 0 else 1)
+  + count_if (fun p => negb (mon_finished p)) (mon s)
+  + hup s
+  + sd_trig s
+  + length (callers s)
+  + (match sd s with SdWait => 1 | SdDone => if sd_timed_out s && negb (wg_zero s) then 1 else 0 | _ => 0 end)
+  + count_if (fun b => negb (sub_closed b)) (subs s).
+
+Lemma census_le_strict s : census s <= census_strict s.
+Proof.
+  unfold census, census_strict.
+  destruct (negb (ctx_done s)); destruct (sd s); lia.
+Qed.
+
+(* a helper's own way out *)
+Definition helper_exit (l : label) : bool :=
+  match l with
+  | LRlsExit _ | LSlsExit _ | LMonExit _ | LHupExit | LSdTrigExit | LMonBcast _ => true
+  | _ => false
+  end.
+
+(* every helper that the lazy census no longer counts has an ENABLED step of its own that takes it out (a
+   monitor that still owes a broadcast does that first): none is stuck.  Under the contracts of the model: a
+   listener selects on ctx.Done in both of its positions, GetStateChan honours its context, ReloadAll gives up
+   on ctx.Done. *)
+Theorem sup_c18_helpers_can_exit c s :
+  ctx_done s = true ->
+  (forall i, ls_finished (get LsAbsent (rls s) i) = false -> step c s (LRlsExit i) <> None) /\
+  (forall i, ls_finished (get LsAbsent (sls s) i) = false -> step c s (LSlsExit i) <> None) /\
+  (forall i, mon_finished (mon_at s i) = false ->
+             step c s (LMonExit i) <> None \/ step c s (LMonBcast i) <> None) /\
+  (hup s <> 0 -> step c s LHupExit <> None) /\
+  (sd s = SdDone -> sd_trig s <> 0 -> step c s LSdTrigExit <> None).
+Proof.
+  intros Hc. unfold step. cbn [step0]. rewrite Hc. repeat split.
+  - intros i H. destruct (get LsAbsent (rls s) i); try discriminate H; discriminate.
+  - intros i H. destruct (get LsAbsent (sls s) i); try discriminate H; discriminate.
+  - intros i H. destruct (mon_at s i); try discriminate H; try (left; discriminate). right. discriminate.
+  - intros H. destruct (hup s); [congruence|discriminate].
+  - intros Es H. rewrite Es. destruct (sd_trig s); [congruence|discriminate].
+Qed.
+
+Lemma count_if_get_zero {A} (f : A -> bool) (d : A) l :
+  (forall i, i < length l -> f (get d l i) = false) -> count_if f l = 0.
+Proof.
+  unfold count_if, get. induction l as [|x l IH]; intros H; [reflexivity|]. cbn [filter].
+  pose proof (H 0 ltac:(cbn; lia)) as H0. cbn in H0. rewrite H0. apply IH.
+  intros i Li. apply (H (S i)). cbn. lia.
+Qed.
+
+(* C18, strict form: after a clean termination, once no helper has an exit step left to take, NOTHING is left *)
+Theorem sup_c18_clean_strict c s r :
+  reachable_sup c s -> main s = MReturned r -> sd_timed_out s = false -> callers s = [] ->
+  forallb sub_closed (subs s) = true ->
+  (forall l, helper_exit l = true -> step c s l = None) ->
+  census_strict s = 0.
+Proof.
+  intros Hre Hm Ht Hc Hs Hx.
+  pose proof (sup_c18_clean c s r Hre Hm Ht Hc Hs) as Z.
+  destruct (InvRet_reachable _ _ Hre) as [R1 _]. pose proof (R1 r Hm) as Hsd.
+  destruct (InvWg_reachable _ _ Hre) as [W1 _]. rewrite Hsd in W1.
+  assert (Hcd : ctx_done s = true) by (unfold ctx_done; now rewrite W1).
+  destruct (sup_c18_helpers_can_exit c s Hcd) as (E1 & E2 & E3 & E4 & E5).
+  assert (A1 : count_if (fun p => negb (ls_finished p)) (rls s) = 0).
+  { apply (count_if_get_zero _ LsAbsent). intros i _. destruct (ls_finished (get LsAbsent (rls s) i)) eqn:F; [reflexivity|].
+    exfalso. apply (E1 i F). apply Hx. reflexivity. }
+  assert (A2 : count_if (fun p => negb (ls_finished p)) (sls s) = 0).
+  { apply (count_if_get_zero _ LsAbsent). intros i _. destruct (ls_finished (get LsAbsent (sls s) i)) eqn:F; [reflexivity|].
+    exfalso. apply (E2 i F). apply Hx. reflexivity. }
+  assert (A3 : count_if (fun p => negb (mon_finished p)) (mon s) = 0).
+  { apply (count_if_get_zero _ MoAbsent). intros i _. fold (mon_at s i). destruct (mon_finished (mon_at s i)) eqn:F; [reflexivity|].
+    exfalso. destruct (E3 i F) as [X|X]; apply X; apply Hx; reflexivity. }
+  assert (A4 : hup s = 0).
+  { destruct (hup s) eqn:E; [reflexivity|]. exfalso. apply E4; [congruence|]. apply Hx. reflexivity. }
+  assert (A5 : sd_trig s = 0).
+  { destruct (sd_trig s) eqn:E; [reflexivity|]. exfalso. apply (E5 Hsd); [congruence|]. apply Hx. reflexivity. }
+  unfold census_strict. unfold census in Z. rewrite Hcd, Hsd in Z. cbn [negb] in Z.
+  rewrite A1, A2, A3, A4, A5, Hsd. lia.
+Qed.
+
+(* the bound of sup_c18_bounded holds for the strict census as well *)
+Theorem sup_c18_bounded_strict c s :
+  reachable_sup c s ->
+  census_strict s <= 5 + 4 * nrun c + hup s + sd_trig s + length (callers s)
+                     + count_if (fun b => negb (sub_closed b)) (subs s).
+Proof.
+  intros Hre. pose proof (InvGate_reachable _ _ Hre) as IG.
+  assert (L1 : length (rn s) = nrun c) by exact (ig_len _ _ IG).
+  unfold census_strict.
+  pose proof (count_if_le (fun p => match p with RnLaunched | RnStored | RnRunning | RnSending _ => true | _ => false end) (rn s)).
+  pose proof (count_if_le (fun p => negb (ls_finished p)) (rls s)).
+  pose proof (count_if_le (fun p => negb (ls_finished p)) (sls s)).
+  pose proof (count_if_le (fun p => negb (mon_finished p)) (mon s)).
+  destruct (InvLen_reachable _ _ Hre) as (La & Lb & Lc).
+  destruct (main s); destruct (rm_finished (rm s)); destruct (sdm_done s); destruct (stm_done s); destruct (sd s);
     try destruct (sd_timed_out s && negb (wg_zero s)); lia.
 Qed.
